@@ -147,6 +147,9 @@ def step (s : S) (line : String) : S × String :=
       | none => (s, "nohalt")
     | none => (s, "bad-op")
   | "deal64" :: _ => (s, "unmodelled")     -- Vitter's algorithm D: monitored on the implementation only
+  | "int64" :: _ =>
+    let (x, r) := s.r64.next
+    ({ s with r64 := r }, s!"ok {(x >>> 1).toNat}")
   | "dbl64" :: _ =>
     let (x, r) := s.r64.next
     ({ s with r64 := r }, s!"ok {hex64 (Float.ofNat (dblNum x) * (1.0/9007199254740992.0)).toBits}")
